@@ -33,6 +33,14 @@ class Obligation:
         self.name, self.hyps, self.goal, self.meta = name, list(hyps), goal, meta or {}
 
 
+class TDynType(Ty):
+    """type(x) of a value whose type is not known statically: compared with a class through the predicate type_is"""
+    name = 'dyntype'
+
+
+TYPE_IS = z3.Function('type_is', ANY.sort(), StrS, z3.BoolSort())
+
+
 class TType(Ty):
     """static result of type(x) for primitives"""
 
@@ -576,6 +584,10 @@ class Executor:
             return z3.BoolVal(False)
         if isinstance(a.t, TType) and isinstance(b.t, TType):
             return z3.BoolVal(a.t.pyname == b.t.pyname)
+        if isinstance(a.t, TDynType) and isinstance(b.t, TType):
+            return TYPE_IS(a.z, strlit(b.t.pyname))
+        if isinstance(b.t, TDynType) and isinstance(a.t, TType):
+            return TYPE_IS(b.z, strlit(a.t.pyname))
         if isinstance(a.t, TOpt) and not isinstance(b.t, TOpt):
             bb = self.coerce(b, a.t.t)
             return z3.And(z3.Not(a.t.dt.is_none(a.z)), a.t.dt.v(a.z) == bb.z)
@@ -673,6 +685,13 @@ class Executor:
         # a lambda is an opaque function value (never called by verified code except through a TFun contract)
         t = TFun('lambda')
         return [Res(st, SV(t, fresh('lambda', t.sort())))]
+
+    def ev_DictComp(self, e, st):
+        self.assumed('comprehensions that only build a returned / logged value are treated as opaque pure expressions')
+        return [Res(st, SV(ANY, fresh('dictcomp', ANY.sort())))]
+
+    ev_ListComp = ev_DictComp
+    ev_GeneratorExp = ev_DictComp
 
     def ev_JoinedStr(self, e, st):
         # f-strings only feed log/error messages: opaque string
